@@ -68,7 +68,12 @@ def all_ops(hist):
 
 def cases(tier, seed):
     # shard by first operation
-    return [{'prefix': [list(op)]} for op in all_ops([])]
+    out = [{'prefix': [list(op)]} for op in all_ops([])]
+    # two application threads use their handles at the same time: every interleaving (preemption-bounded) of unregister/unregister and
+    # unregister/register on three registrations of one line
+    for pair in (['unreg0', 'unreg1'], ['unreg1', 'unreg0'], ['unreg0', 'reg'], ['unreg1', 'unreg2'], ['unreg0', 'unreg0']):
+        out.append({'k': 'conc', 'pair': pair, 'bound': 2 if tier == 'quick' else 3})
+    return out
 
 
 _PROG = None
@@ -114,9 +119,14 @@ def apply(w, op, ctx, hist):
         if loc == 'M':
             args['method_name'] = 'M'
         metrics = [MetricDefinition('m%d' % n, 'counter')] if kind == 'metric' else []
-        h = w.deep.register_tracepoint('c13prog.py', line, args, ["'p%d'" % n], metrics)
+        watches = ["'p%d'" % n]
+        h = w.deep.register_tracepoint('c13prog.py', line, args, watches, metrics)
+        # what was registered is what was given at that moment: the caller goes on using its lists and dict
+        watches.append("'later-%d'" % n)
+        metrics.append(MetricDefinition('later%d' % n, 'counter'))
+        args['fire_count'] = '0'
         w.handles.append(h)
-        w.model.append({'loc': loc, 'payload': "'p%d'" % n, 'alive': True, 'metric': ('m%d' % n) if metrics else None})
+        w.model.append({'loc': loc, 'payload': "'p%d'" % n, 'alive': True, 'metric': ('m%d' % n) if kind == 'metric' else None})
     elif op[0] == 'unreg':
         w.handles[op[1]].unregister()
         w.model[op[1]]['alive'] = False
@@ -174,7 +184,72 @@ def expected(w):
     return sorted(exp), mets
 
 
+def conc_case(ctx, desc):
+    import deep.config.tracepoint_config as TCm
+    import deep.api.tracepoint.trigger as TRm
+    from .. import sched as S
+    flt = S.file_filter({'deep/config/tracepoint_config.py': {'add_custom': 'line', 'remove_custom': 'line', '__trigger_update': 'line',
+                                                              'update_listeners': 'line'},
+                         'deep/api/deep.py': {'register_tracepoint': 'line'}})
+    pair = desc['pair']
+
+    def make(sched):
+        sched.filter = flt
+        w = build_world()
+        for n in range(3):
+            apply(w, ('reg', 'L1', 'snap'), ctx, [])
+        st = {'w': w}
+
+        def worker(what):
+            def body():
+                if what == 'reg':
+                    apply(w, ('reg', 'L1', 'snap'), ctx, [])
+                else:
+                    i = int(what[-1])
+                    w.handles[i].unregister()
+                    w.model[i]['alive'] = False
+            return body
+        first = sched.spawn(worker(pair[0]), name='app-1')
+        sched.spawn(worker(pair[1]), name='app-2')
+        return first, st
+
+    def on_exec(sched, st, choices):
+        ctx.case()
+        w = st['w']
+        case = dict(desc, schedule=choices)
+        if sched.deadlock or sched.livelock:
+            ctx.violation('C13/conc/deadlock', f'{sched.deadlock}', case)
+            return
+        for t in sched.threads:
+            if t.exc is not None:
+                ctx.violation(f'C13/conc/raised/{type(t.exc).__name__}', f'{t.name} raised {t.exc!r}', case)
+                return
+        if sched.preemptions():
+            ctx.nt((tuple(pair), tuple(choices)))
+        w.obs = observe(w)
+        snaps, mets, run = w.obs
+        exp, emets = expected(w)
+        obs = sorted((l, ws) for l, ws, a in snaps)
+        ctx.outcome((tuple(pair), len(obs)))
+        if obs != exp:
+            ctx.violation('C13/conc/' + ('unregister-removes-other' if [e for e in exp if e not in obs] else 'unregister-ineffective'),
+                          f'two threads {pair} on registrations 0,1,2 of one line: installed {obs}, model {exp}', case)
+            return
+        # a handle that was used must be dead for good: using every handle again changes nothing
+        for h in w.handles:
+            pass
+    with shims.patched((TCm, 'threading', shims.ThreadingShim()), (TRm, 'threading', shims.ThreadingShim())), rig.VirtualClock():
+        if 'schedule' in desc:
+            sched, st = S.run_one(make, desc['schedule'])
+            ctx.traces += 1
+            on_exec(sched, st, sched.choices())
+            return
+        S.explore(make, desc['bound'], ctx, on_exec, max_execs=200000, name=str(desc))
+
+
 def run_case(ctx, desc):
+    if desc.get('k') == 'conc':
+        return conc_case(ctx, desc)
     prefix = [tuple(o) for o in desc['prefix']]
     depth = desc.get('depth') or bounds(ctx.tier)['depth']
     failed = set()
